@@ -51,8 +51,20 @@ def build_harness(wd, pkg="./internal/verifharness/engine/", name="engine.test")
     write_overlay(ov)
     out = os.path.join(wd, name)
     t0 = time.time()
-    p = subprocess.run(["go", "test", "-c", "-vet=off", "-tags", "verif", "-overlay", ov, "-o", out, pkg],
-                       cwd=REPO, env=GOENV, capture_output=True, text=True)
+    # bin/seedrun holds this lock exclusively while a seeded change is applied to /repo (development aid only):
+    # a check started meanwhile waits instead of building a patched tree
+    lockfh = None
+    if not os.environ.get("VERIF_REPO_LOCKED"):
+        import fcntl
+        os.makedirs(os.path.join(VERIF, ".work"), exist_ok=True)
+        lockfh = open(os.path.join(VERIF, ".work", "repo.lock"), "w")
+        fcntl.flock(lockfh, fcntl.LOCK_SH)
+    try:
+        p = subprocess.run(["go", "test", "-c", "-vet=off", "-tags", "verif", "-overlay", ov, "-o", out, pkg],
+                           cwd=REPO, env=GOENV, capture_output=True, text=True)
+    finally:
+        if lockfh:
+            lockfh.close()
     if p.returncode != 0 or not os.path.exists(out):
         sys.stderr.write(p.stdout + p.stderr)
         raise Inconclusive("harness build failed")
